@@ -10,6 +10,11 @@ import (
 	"github.com/pion/rtcp"
 )
 
+// maxHistorySize is the number of most recently sent packets the history keeps
+// while waiting for feedback. Older packets are dropped, so that a receiver that
+// never sends (or stops sending) feedback cannot make the history grow forever.
+const maxHistorySize = 1 << 15
+
 type ssrcSequenceNumber struct {
 	ssrc           uint32
 	sequenceNumber uint16
@@ -80,6 +85,11 @@ func (h *history) addOutgoing(
 		ECN:                rtcp.ECNNonECT,
 	}
 	h.counter++
+	if h.counter > maxHistorySize {
+		if p, ok := h.packets[h.counter-maxHistorySize-1]; ok {
+			h.delete(p)
+		}
+	}
 }
 
 // onFeedback maps an incoming ack for counter to the PacketReport stored when
